@@ -229,6 +229,7 @@ pub fn run(tier: Tier) -> i32 {
     {
         let mut shapes = super::curves::near_collinear_arcs();
         shapes.extend(super::curves::far_almost_collinear_arcs());
+        shapes.extend(super::curves::adjacent_float_ends());
         let total = shapes.len() as u64 * modes.len() as u64;
         let a = par_range(total, |idx, acc| {
             let mode = modes[(idx % modes.len() as u64) as usize];
@@ -239,7 +240,7 @@ pub fn run(tier: Tier) -> i32 {
                 acc.violation(Violation::new("panic", format!("{mode:?} {}: {p}", points_json(pts)), case_json(mode, pts, None)));
             }
         });
-        bounds.push(json!({"almost_straight_three_point_perfect_curves_near_and_far_from_the_origin": shapes.len(), "modes": modes.len()}));
+        bounds.push(json!({"extra_shapes_almost_straight_arcs_near_and_far_and_paths_ending_in_neighbouring_floats": shapes.len(), "modes": modes.len()}));
         acc = acc.merge(a);
     }
     let summary = Summary {
